@@ -305,9 +305,23 @@ func (w *World) converterArms(fi *FuncInfo) []convArm {
 	info := fi.Pkg.TypesInfo
 	var out []convArm
 	var sw *ast.SwitchStmt
+	// isSpecType: the expression is the OpenAPI type of the validated value (ToOpenApiType(...)), whatever it is called
+	isSpecType := func(e ast.Expr) bool {
+		id, ok := ast.Unparen(e).(*ast.Ident)
+		if !ok {
+			return false
+		}
+		// (exprAtoms looks through the parameters of new functions to what their call sites pass)
+		return id.Name == "specType" || w.exprAtoms(fi, id).Calls["generator/swagen/swagtool.ToOpenApiType"]
+	}
 	w.inspectRegion(fi, func(n ast.Node) bool {
-		if s, ok := n.(*ast.SwitchStmt); ok && sw == nil && s.Tag != nil && exprString(s.Tag) == "ruleName" {
-			sw = s
+		if s, ok := n.(*ast.SwitchStmt); ok && sw == nil && s.Tag != nil {
+			// the dispatch on the rule name: the first switch whose case labels are validator rule names
+			if exprString(s.Tag) == "ruleName" {
+				sw = s
+			} else if t := info.TypeOf(s.Tag); t != nil && t.String() == "string" && !isSpecType(s.Tag) && len(s.Body.List) >= 10 {
+				sw = s
+			}
 		}
 		return true
 	})
@@ -338,14 +352,43 @@ func (w *World) converterArms(fi *FuncInfo) []convArm {
 			return true
 		})
 	}
-	specLits := func(cond ast.Expr) []string {
+	fdefs := w.defsOf(fi)
+	var specLitsRec func(cond ast.Expr, depth int) []string
+	specLitsRec = func(cond ast.Expr, depth int) []string {
 		var lits []string
 		ast.Inspect(cond, func(m ast.Node) bool {
-			if be, ok := m.(*ast.BinaryExpr); ok && be.Op == token.EQL && exprString(be.X) == "specType" {
-				lits = append(lits, litString(be.Y))
+			switch x := m.(type) {
+			case *ast.BinaryExpr:
+				if x.Op == token.EQL && isSpecType(x.X) {
+					lits = append(lits, litString(x.Y))
+				}
+			case *ast.Ident:
+				// a boolean local computed once from the spec type (`isNumeric := specType == … || …`)
+				if depth < 2 {
+					if o, ok := info.ObjectOf(x).(*types.Var); ok && !o.IsField() {
+						if b, isB := o.Type().Underlying().(*types.Basic); isB && b.Kind() == types.Bool {
+							if ds := fdefs.defs[o]; len(ds) == 1 {
+								if call, isCall := ast.Unparen(ds[0]).(*ast.CallExpr); isCall {
+									// ... or by a new predicate over the spec type
+									if name := calleeOfCall(info, call); name != "" && w.isNewName(name) {
+										for _, re := range resultExprs(w.Funcs[name], 0) {
+											lits = append(lits, specLitsRec(re, depth+1)...)
+										}
+									}
+								} else {
+									lits = append(lits, specLitsRec(ds[0], depth+1)...)
+								}
+							}
+						}
+					}
+				}
 			}
 			return true
 		})
+		return lits
+	}
+	specLits := func(cond ast.Expr) []string {
+		lits := dedupSortedPlain(specLitsRec(cond, 0))
 		sort.Strings(lits)
 		return lits
 	}
@@ -384,7 +427,7 @@ func (w *World) converterArms(fi *FuncInfo) []convArm {
 						}
 					}
 				case *ast.SwitchStmt:
-					if s.Tag != nil && exprString(s.Tag) == "specType" {
+					if s.Tag != nil && isSpecType(s.Tag) {
 						for _, icc := range s.Body.List {
 							icl := icc.(*ast.CaseClause)
 							var ls []string
@@ -527,8 +570,8 @@ func checkValidationSites(c *Ctx, r *Report) {
 	collect := func(pkg, conv string, refGuard func(a *sliceAtoms, cnd ssa.Value, pol bool) bool) map[string]siteInfo {
 		out := map[string]siteInfo{}
 		for _, fi := range w.funcsOfPkg(pkg) {
-			if fi.SSA == nil {
-				continue
+			if fi.SSA == nil || w.isNewName(fi.Key) {
+				continue // (a new function's sites are seen from the functions that call it)
 			}
 			for _, cl := range callsIn(fi.SSA, true, nameIs(pkg+"."+conv)) {
 				g := false
